@@ -182,6 +182,28 @@ RelClauses(c, prop) ==
                      /\ EqV(e.v, IF IsNum(f.v) THEN Neg(f.v) ELSE f.v) /\ EqN(e.vd, IF IsNum(f.vd) THEN Neg(f.vd) ELSE f.vd)
                      /\ EqN(e.tf, f.tt) /\ EqN(e.tt, f.tf) /\ e.hydall = f.hydall)}}
 
+(* ------------------------------ C17 (subnet) ---------------------------------- *)
+(* select_subnet on the junctions of the supplied part: the subnet holds exactly the elements all of whose      *)
+(* junctions are selected (a junction-pipe valve with its pipe), and a pipeflow on it reproduces the region's   *)
+(* results.                                                                                                     *)
+JRefsOf(e) == {e.a} \cup (IF IsPipeValve(e) THEN {} ELSE {e.b}) \cup (IF e.tbl = "press_control" THEN {e.cj} ELSE {})
+SubnetE(net, S) ==
+    LET keptP == {e.lab : e \in {e \in ERows(net) : e.tbl = "pipe" /\ JRefsOf(e) \subseteq S}}
+    IN {e \in ERows(net) : JRefsOf(e) \subseteq S /\ (IsPipeValve(e) => e.b \in keptP)}
+C17_Subnet(c) ==
+    IF ~("snet" \in DOMAIN c) THEN {} ELSE
+    LET S == HydSupplied(c.net)
+        rowsOK == /\ JLabs(c.snet) = S
+                  /\ {EKey(e) : e \in SubnetE(c.net, S)} = {EKey(e) : e \in ERows(c.snet)}
+                  /\ {NKey(n) : n \in {n \in NRows(c.net) : n.j \in S}} = {NKey(n) : n \in NRows(c.snet)}
+        eqv(x, y) == (IsNum(x) /\ IsNum(y) /\ Near(x, y, PruneTol)) \/ (~IsNum(x) /\ ~IsNum(y))
+    IN IF ~rowsOK THEN {<<"C17.subnet_rows", "", "">>}
+       ELSE IF c.soutcome # "returned" THEN (IF c.soutcome = "PipeflowNotConverged" THEN {} ELSE {<<"C17.subnet_outcome", c.soclass, "">>})
+       ELSE {<<"C17.subnet_junction", "", ToString(j.lab)>> : j \in {j \in JRows(c.net) : j.lab \in S /\
+                  \E k \in JRows(c.snet) : k.lab = j.lab /\ ~eqv(j.p, k.p)}}
+            \cup {<<"C17.subnet_branch", e.tbl, ToString(e.lab)>> : e \in {e \in SubnetE(c.net, S) :
+                  \E k \in ERows(c.snet) : EKey(k) = EKey(e) /\ ~(eqv(e.mf, k.mf) /\ eqv(e.pf, k.pf) /\ eqv(e.pt, k.pt))}}
+
 (* ------------------------------ C05 (result side) -------------------- *)
 (* a failed run leaves no number in any result table *)
 C05_FailedEmpty(c) ==
@@ -196,6 +218,7 @@ Failures(c) ==
     \cup (IF "C03" \in Rng(c.check) THEN C03(c) ELSE {})
     \cup (IF "C06R" \in Rng(c.check) THEN RelClauses(c, "C06") ELSE {})
     \cup (IF "C09R" \in Rng(c.check) THEN RelClauses(c, "C09") ELSE {})
+    \cup (IF "C17S" \in Rng(c.check) /\ Returned(c) THEN C17_Subnet(c) ELSE {})
     \cup (IF "C07R" \in Rng(c.check) THEN RelClauses(c, "C07") ELSE {})
     \cup (IF "C09S" \in Rng(c.check) THEN RelClauses(c, "C09.start_temperature") ELSE {})
     \cup (IF "C05" \in Rng(c.check) THEN C05_FailedEmpty(c) ELSE {})
